@@ -1280,10 +1280,32 @@ func (n *N) forToRange(x *ast.ForStmt) ast.Stmt {
 		return nil
 	}
 	be, ok := x.Cond.(*ast.BinaryExpr)
-	if !ok || be.Op != token.LSS || n.objOf(be.X) != n.objOf(as.Lhs[0]) {
+	if !ok || n.objOf(be.X) != n.objOf(as.Lhs[0]) {
 		return nil
 	}
-	call, ok := be.Y.(*ast.CallExpr)
+	bound := be.Y
+	for {
+		p, ok := bound.(*ast.ParenExpr)
+		if !ok {
+			break
+		}
+		bound = p.X
+	}
+	switch be.Op {
+	case token.LSS, token.NEQ: // k < len(x), k != len(x)
+	case token.LEQ: // k <= len(x)-1
+		sub, ok := bound.(*ast.BinaryExpr)
+		if !ok || sub.Op != token.SUB {
+			return nil
+		}
+		if tv, ok := n.Info.Types[sub.Y]; !ok || tv.Value == nil || tv.Value.String() != "1" {
+			return nil
+		}
+		bound = sub.X
+	default:
+		return nil
+	}
+	call, ok := bound.(*ast.CallExpr)
 	if !ok || len(call.Args) != 1 {
 		return nil
 	}
@@ -1315,8 +1337,34 @@ func (n *N) indexToRange(key ast.Expr, coll ast.Expr, body *ast.BlockStmt, loop 
 		}
 		return true
 	})
-	if good == 0 || uses != good {
+	if good == 0 {
 		return nil
+	}
+	keepKey := uses != good // the index is also used on its own (k < len(seps), k != last): keep it as the range key
+	if keepKey {
+		assigned := false
+		ast.Inspect(body, func(m ast.Node) bool {
+			switch y := m.(type) {
+			case *ast.AssignStmt:
+				for _, l := range y.Lhs {
+					if n.objOf(l) == ko {
+						assigned = true
+					}
+				}
+			case *ast.IncDecStmt:
+				if n.objOf(y.X) == ko {
+					assigned = true
+				}
+			case *ast.UnaryExpr:
+				if y.Op == token.AND && n.objOf(y.X) == ko {
+					assigned = true
+				}
+			}
+			return true
+		})
+		if assigned {
+			return nil
+		}
 	}
 	// the element must not be assigned through the index
 	bad := false
@@ -1350,5 +1398,9 @@ func (n *N) indexToRange(key ast.Expr, coll ast.Expr, body *ast.BlockStmt, loop 
 	c := &cloner{n: n, from: n.Info, repl: repl}
 	nb := c.node(body).(*ast.BlockStmt)
 	us := &ast.Ident{NamePos: loop.Pos(), Name: "_"}
+	if keepKey {
+		us = &ast.Ident{NamePos: loop.Pos(), Name: ko.Name()}
+		n.Info.Defs[us] = ko
+	}
 	return &ast.RangeStmt{For: loop.Pos(), Key: us, Value: def, Tok: token.DEFINE, X: coll, Body: nb}
 }
